@@ -234,6 +234,17 @@ CLAIMED['C15'] = dict(
     technique='TLA+ specs (Predictive.tla, SampleAlgebra.tla) with TLC; spec->code replay of every request; code->spec check of '
               'recorded sampler calls',
     design='6/C15')
+CLAIMED['C20'] = dict(
+    engine='Plots',
+    text='Plots.tla states the rank rule of the prediction bands in exact rational arithmetic and TLC verifies, for every '
+         'sample sequence (ties included) and a grid of bulk probabilities, that the limits enclose the requested fraction, are '
+         'nested and exist monotonically; it also defines the routing of data-frame rows to per-individual marker and dose '
+         'traces. Every enumerated sample sequence / row set is plotted with the real figure classes and the plotly traces '
+         'are read back and compared; data frames are compared before and after.',
+    note='figure objects, not pixels; threshold ties between floating point and exact arithmetic are excluded from the '
+         'equality check (the property itself is still checked on them)',
+    technique='TLA+ spec (Plots.tla) model-checked with TLC; spec->code replay through the plotly figure objects',
+    design='6/C20')
 
 NOT_YET = {
 }
